@@ -631,6 +631,8 @@ impl<'a> Iterator for MessageSetsIter<'a> {
                         messages,
                     });
                 }
+                // ~ skipped: go on with the next partition of this topic
+                continue;
             }
             // ~ then the next available topic
             if let Some(t) = self.topics.as_mut().and_then(Iterator::next) {
